@@ -6,6 +6,7 @@ package main
 // from schema2go with variations. Judged by spec/Trace_Codec.tla (vec_read).
 
 import (
+	"bytes"
 	"fmt"
 	"os"
 	"reflect"
@@ -206,8 +207,23 @@ func driveRandomLegal(c *driverCtx, prop string) {
 	feat.MaxDepth = 4
 	n := c.pick(150, 40000)
 	done := 0
+	fixed := []reflect.Type{reflect.TypeOf(WManyPtrTypesNoTime{}), reflect.TypeOf(WMapWide{}), reflect.TypeOf(WOddSizePtr{})}
 	for i := 0; done < n && i < 4*n; i++ {
 		t, tags := genType(c.rng, feat)
+		if i < 4*len(fixed) {
+			// a few compile-time types too: many distinct pointer types in one record, wide map values, odd sizes
+			t, tags = fixed[i%len(fixed)], []string{"static", fixed[i%len(fixed)].Name()}
+		} else if i < 4*len(fixed)+c.pick(40, 400) {
+			// pointers to one common type interleaved with pointers to struct types no resource bank has seen yet (a
+			// bank's table of types has to grow in the middle of the record)
+			var fs []reflect.StructField
+			for k := 0; k < 13; k++ {
+				fs = append(fs, reflect.StructField{Name: fmt.Sprintf("X%d", k), Type: reflect.TypeOf((*int64)(nil))})
+				u := reflect.StructOf([]reflect.StructField{{Name: fmt.Sprintf("U%d_%d", i, k), Type: reflect.TypeOf(int64(0))}, {Name: "S", Type: reflect.TypeOf("")}})
+				fs = append(fs, reflect.StructField{Name: fmt.Sprintf("N%d", k), Type: reflect.PointerTo(u)})
+			}
+			t, tags = reflect.StructOf(fs), []string{"new-pointer-types-interleaved"}
+		}
 		if typeContains(t, nullTimeT) {
 			continue // a random string is not a timestamp
 		}
@@ -375,6 +391,30 @@ func driveLongValues(c *driverCtx, prop string) {
 		}
 	}
 	c.rec.Realised("len-3-bytes-values")
+	if prop == "C03" {
+		// one block that inflates to several MiB from a few KiB (any compression ratio is legal)
+		n := 4<<20 + 4096
+		var b []byte
+		b = appendVar(b, int64(n))
+		b = append(b, bytes.Repeat([]byte{'a'}, n)...)
+		b = appendVar(b, 0) // b: empty bytes
+		b = appendVar(b, 0) // m: empty map
+		b = appendVar(b, 1)
+		b = appendVar(b, 0) // t: null
+		b = appendVar(b, 2)
+		t := reflect.TypeOf(struct {
+			A int64 `json:"a"`
+			Z int64 `json:"z"`
+		}{})
+		for _, codec := range []string{"deflate", "snappy"} {
+			file := buildContainer([]byte(sj), codec, true, []byte("0123456789abcdef"), [][2]any{{1, b}})
+			r := readBack(t, file, "bytes", false, -1, nil)
+			c.rec.NewCase()
+			c.rec.Emit(fmt.Sprintf("%s|long-values|highly-compressible-block|%s", prop, codec), map[string]any{
+				"op": "rand_read", "mode": prop, "schema": sn, "records": []any{byteList(b)}, "target": projectType(t), "codec": codec,
+				"delivered": orEmpty(r.delivered), "recheck": orEmpty(r.recheck), "err": errString(r.err), "panic": r.panicked})
+		}
+	}
 	// items that take no bytes at all (null, records without fields): the item count says nothing about the
 	// bytes that follow
 	const zj = `{"type":"record","name":"ZW","fields":[{"name":"n","type":{"type":"array","items":"null"}},{"name":"e","type":{"type":"array","items":{"type":"record","name":"E","fields":[]}}},{"name":"mn","type":{"type":"map","values":"null"}},{"name":"z","type":"long"}]}`
